@@ -113,6 +113,28 @@ class HistoryStream(Stream):
             '(types included) of stored policies and inquiries before/after. non-trivial = sequence with a '
             'repeated inquiry and both answers occurring')
 
+    def corpus(self):
+        def pol(uid, eff, actions, tags=('<', '>')):
+            return {'uid': uid, 'effect': eff, 'subjects': [['s', 'Max']], 'resources': [['s', 'r']],
+                    'actions': [['s', a] for a in actions], 'context': [], 'description': None, 'tags': list(tags)}
+        out = []
+        # a malformed element followed by one that fits: whatever the first evaluation makes of the malformed one, the
+        # later evaluations must make the same of it
+        q = {'resource': 'r', 'action': 'a', 'subject': 'Max', 'context': None}
+        alt = ['alt', ['chr', 97], ['chr', 98]]
+        for eff in ('allow', 'deny'):
+            out.append({'checker': 'CRegex', 'policies': [pol('m1', eff, ['<a', '<a|b>'])], 'rxtable': [['a|b', alt]],
+                        'inquiries': [q, dict(q, action='b')], 'order': [0, 0, 1, 0]})
+        # one phrase under two delimiter pairs: balanced for '<' '>' (a group and a literal '}'), malformed for '{' '}'
+        phrase = 'tpl:<[a-c]>}'
+        cls_ = ['cls', False, [[97, 99]]]
+        q2 = dict(q, action='tpl:a}')
+        for first, second in ((('<', '>'), ('{', '}')), (('{', '}'), ('<', '>'))):
+            out.append({'checker': 'CRegex', 'rxtable': [['[a-c]', cls_]], 'inquiries': [q2, dict(q2, action='tpl:z}')],
+                        'policies': [pol('t1', 'allow', [phrase], first), pol('t2', 'allow', [phrase], second)],
+                        'order': [0, 0, 1, 0]})
+        return out
+
     def generate(self, rng, tier):
         n = 500 if tier == 'quick' else 5000
         maxlen = 12 if tier == 'quick' else 25
